@@ -77,6 +77,9 @@ uint8_t* vp_guard_begin(size_t n)
     return base + pg;
 }
 
+/* whole pages starting at a vp_map() result: make them read-only / writable again */
+void vp_readonly(uint8_t* page, size_t n, int on) { mprotect(page, roundup(n ? n : 1), on ? PROT_READ : (PROT_READ | PROT_WRITE)); }
+
 void vp_guard_free(uint8_t* p, size_t n)
 {
     size_t body = roundup(n ? n : 1), pg = pagesz();
